@@ -255,6 +255,26 @@ pub fn crafted_g1(pair: &(Vec<u8>, Vec<u8>)) -> Option<G1> {
 }
 
 pub const TAGS: [&str; 5] = ["A", "J", "S", "Z0", "ZN"];
+/// number of rescaling classes of the "S" representatives (see g1_rep / g2_rep); `*_rep_class` forces one of them
+pub const G1_NSEL: usize = 8;
+pub const G2_NSEL: usize = 20;
+thread_local! {
+    static G1_SEL: std::cell::Cell<Option<usize>> = const { std::cell::Cell::new(None) };
+    static G2_SEL: std::cell::Cell<Option<usize>> = const { std::cell::Cell::new(None) };
+}
+/// the "S" representative of p in rescaling class `sel` (deterministic sweep of the classes, instead of drawing one)
+pub fn g1_rep_class<R: Rng>(rng: &mut R, p: G1, sel: usize) -> G1 {
+    G1_SEL.with(|c| c.set(Some(sel % G1_NSEL)));
+    let r = g1_rep(rng, p, "S");
+    G1_SEL.with(|c| c.set(None));
+    r
+}
+pub fn g2_rep_class<R: Rng>(rng: &mut R, p: G2, sel: usize) -> G2 {
+    G2_SEL.with(|c| c.set(Some(sel % G2_NSEL)));
+    let r = g2_rep(rng, p, "S");
+    G2_SEL.with(|c| c.set(None));
+    r
+}
 
 pub fn g1_rep<R: Rng>(rng: &mut R, p: G1, tag: &str) -> G1 {
     if p.is_zero() {
@@ -274,7 +294,7 @@ pub fn g1_rep<R: Rng>(rng: &mut R, p: G1, tag: &str) -> G1 {
             q
         }
         "S" => {
-            let sel = rng.gen_range(0..8);
+            let sel = G1_SEL.with(|c| c.replace(None)).unwrap_or_else(|| rng.gen_range(0..G1_NSEL));
             if sel >= 6 {
                 // a raw x or y coordinate steered to a small constant (when such a representative exists)
                 let (which, c) = (rng.gen_range(0..3usize).min(1), small_const(rng));
@@ -326,7 +346,7 @@ pub fn g2_rep<R: Rng>(rng: &mut R, p: G2, tag: &str) -> G2 {
         "S" => {
             // lambda: 2, -1, i, a purely imaginary element, a real element, a general element
             // (z shares a component with a special constant without being it: real part 1, imaginary part 1, real part 0 ...)
-            let sel = rng.gen_range(0..20);
+            let sel = G2_SEL.with(|c| c.replace(None)).unwrap_or_else(|| rng.gen_range(0..G2_NSEL));
             if sel == 19 && !hi_w().is_empty() {
                 // z = 1/w with w, w^2 in the top class of the sum-of-products accumulator
                 let ws = hi_w();
